@@ -3,6 +3,7 @@ against Puddle/Model.v, plus an independent reference of the documented
 procedure, prefix causality, frozen-model and train-concatenation checks."""
 import collections
 import copy
+import itertools
 import sys
 
 from common import load_corpus, Check, correspond, decode_result, call_impl, finish_proof_failures, text2j, j2s, EXN
@@ -132,18 +133,36 @@ def make_case(window, byfreq, ops, family):
                 if bad:
                     return bad
             prev = r[2]
-        # prefix causality, on the implementation
+        # prefix causality, on the implementation: for update and frozen segmentation alike, the output of every
+        # prefix of the text (every prefix of texts of <= 5 utterances, three prefixes of longer ones) is the
+        # prefix of the output. The model reached before op k is rebuilt once and copied for each prefix.
         for k, (kind, text) in enumerate(ops):
-            if kind == 1 and len(text) > 1 and out[k][0] == 'ok' if k < len(out) else False:
-                cut = len(text) // 2
-                h2 = run_impl_history(window, byfreq, ops[:k] + [(kind, text[:cut])])
-                if h2[-1][0] != 'ok' or h2[-1][1] != out[k][1][:cut]:
-                    return 'output of a prefix is not the prefix of the output (op %d)' % k
-        # train(A) then train(B) == train(A + B)
-        if len(ops) >= 2 and ops[0][0] == 0 and ops[1][0] == 0 and len(out) >= 2 and out[1][0] == 'ok':
-            h3 = run_impl_history(window, byfreq, [(0, list(ops[0][1]) + list(ops[1][1]))])
-            if h3[0][0] != 'ok' or h3[0][2] != out[1][2]:
-                return 'train(A); train(B) differs from train(A + B)'
+            if kind != 0 and len(text) > 1 and k < len(out) and out[k][0] == 'ok':
+                n = len(text)
+                cuts = range(1, n) if n <= 5 else sorted({1, n // 2, n - 1})
+                base = puddle.Puddle(window=window, by_frequency=byfreq)
+                for k0, t0 in ops[:k]:
+                    if k0 == 0:
+                        base.train(list(t0))
+                    else:
+                        list(base.segment(list(t0), update_model=(k0 == 1)))
+                for cut in cuts:
+                    m2 = puddle.Puddle(window=window, by_frequency=byfreq)
+                    m2._lexicon, m2._beginning, m2._ending = (collections.Counter(base._lexicon), collections.Counter(base._beginning),
+                                                              collections.Counter(base._ending))
+                    try:
+                        o2 = list(m2.segment(list(text[:cut]), update_model=(kind == 1)))
+                    except Exception as e:  # noqa
+                        return 'segmenting the first %d utterances of op %d raised %s' % (cut, k, type(e).__name__)
+                    if o2 != out[k][1][:cut]:
+                        return 'output of a prefix is not the prefix of the output (op %d %s, first %d of %d utterances: %r vs %r)' % (
+                            k, KIND[kind], cut, n, o2, out[k][1][:cut])
+        # train(A) then train(B) == train(A + B), wherever two train calls follow each other
+        for k in range(len(ops) - 1):
+            if ops[k][0] == 0 and ops[k + 1][0] == 0 and len(out) >= k + 2 and out[k + 1][0] == 'ok':
+                h3 = run_impl_history(window, byfreq, ops[:k] + [(0, list(ops[k][1]) + list(ops[k + 1][1]))])
+                if h3[-1][0] != 'ok' or h3[-1][2] != out[k + 1][2]:
+                    return 'train(A); train(B) differs from train(A + B) (ops %d, %d)' % (k, k + 1)
         return None
 
     return dict(op=1102, arg=[window, int(byfreq), [[k, text2j(t)] for k, t in ops]], site='puddle.Puddle',
@@ -151,6 +170,9 @@ def make_case(window, byfreq, ops, family):
                 impl=lambda: run_impl_history(window, byfreq, ops), dec=dec_history, oracle=oracle,
                 res_of=lambda m: ('ok',) if all(r[0] == 'ok' for r in m) else ('raise', m[-1][1]),
                 nontrivial=lambda m: any(r[0] == 'ok' and any(' ' in u for u in r[1]) for r in m))
+
+
+UTTS3 = [seq for m in (1, 2, 3) for seq in itertools.product('ab', repeat=m)]
 
 
 def rand_text(rng, alpha, lex, n):
@@ -180,17 +202,57 @@ def main():
         if k % 50 == 0:
             ops.append((1, ['a b', '', 'a']))      # malformed: blank line -> ValueError
         cases.append(make_case(window, byfreq, ops, 'random-%d' % len(alpha)))
-    for c in cases:
-        ck.count('family:' + c['desc']['family'])
-        ck.count('window:%d' % c['desc']['window'])
-        ck.count('nops:%d' % len(c['desc']['ops']))
-    correspond(ck, cases)
+    # exhaustive short histories: every pair of calls (train / segment-update / segment-frozen)^2 over every text of
+    # <= 2 utterances of <= 3 units on {a, b} with at most `tot` units in all, window 1..2 x by_frequency. The
+    # procedure does not look at the symbols' identity (only equality of strings and counts), so the first text
+    # starts with 'a' without loss of generality.
+    def flush():
+        # in batches: the exhaustive family of the thorough tier has several hundred thousand histories
+        for c in cases:
+            ck.count('family:' + c['desc']['family'])
+            ck.count('window:%d' % c['desc']['window'])
+            ck.count('nops:%d' % len(c['desc']['ops']))
+        correspond(ck, cases)
+        del cases[:]
+    tot = 5 if ck.thorough else 3
+    small = [gens.lines(t) for t in gens.exhaustive_texts(['a', 'b'], tot, 2) if all(len(u) <= 3 for u in t)]
+    nex = 0
+    for t1 in small:
+        if not t1[0].startswith('a'):
+            continue
+        for t2 in small:
+            for k1 in range(3):
+                for k2 in range(3):
+                    for window in (1, 2):
+                        for byfreq in (False, True):
+                            cases.append(make_case(window, byfreq, [(k1, t1), (k2, t2)], 'exhaustive-2-calls'))
+                            nex += 1
+        if len(cases) > 60000:
+            flush()
+    # beyond the exhaustive bound: pairs of calls over the full scope (<= 2 utterances of <= 3 units each), sampled
+    full = [gens.lines([list(a)] + ([list(b)] if b else [])) for a in UTTS3 for b in [None] + UTTS3]
+    for _ in range(20000 if ck.thorough else 12000):
+        cases.append(make_case(rng.choice([1, 2]), rng.random() < 0.5, [(rng.randint(0, 2), rng.choice(full)), (rng.randint(0, 2), rng.choice(full))], 'sampled-2-calls'))
+    # train(A); train(B) against train(A + B), at any place of a history
+    for k in range(3000 if ck.thorough else 400):
+        alpha = alphas[k % len(alphas)]
+        lexi = gens.planted_lexicon(rng, alpha, nwords=rng.randint(2, 4))
+        ops = [(rng.choice([0, 1, 2]), rand_text(rng, alpha, lexi, rng.randint(1, 4))) for _ in range(rng.randint(0, 2))]
+        ops += [(0, rand_text(rng, alpha, lexi, rng.randint(1, 6))), (0, rand_text(rng, alpha, lexi, rng.randint(1, 6)))]
+        if rng.random() < 0.3:
+            ops.append((0, rand_text(rng, alpha, lexi, rng.randint(1, 3))))
+        if rng.random() < 0.5:
+            ops.append((rng.choice([1, 2]), rand_text(rng, alpha, lexi, rng.randint(1, 4))))
+        cases.append(make_case(rng.choice([1, 2, 2, 3, 4]), rng.random() < 0.5, ops, 'train-train'))
+    flush()
     nre, problems = ck.coq_recheck()
     finish_proof_failures(ck, failures + problems)
     return ck.finish(
-        rule='%d random histories of 1-8 train/segment(update)/segment(frozen) calls over planted-lexicon texts on 5 alphabets x window 1-4 x by_frequency; '
+        rule='exhaustively every history of 2 calls over the texts of <= 2 utterances of <= 3 units on {a,b} with <= %d units in all (first unit a, by symmetry) x window 1-2 x by_frequency (%d histories), '
+             'sampled pairs of calls over the full scope beyond that, histories with consecutive train calls (train(A);train(B) against train(A+B) at any place); %d random histories of 1-8 train/segment(update)/segment(frozen) calls over planted-lexicon texts on 5 alphabets x window 1-4 x by_frequency; '
              'after every call the outputs and the three counters are compared with the model and with an independent reference of the documented procedure; '
-             'prefix causality, frozen-model and train-concatenation are checked on the implementation. Non-trivial = some output utterance contains a boundary.' % n)
+             'prefix causality (every prefix of every segmented text of <= 5 utterances, update and frozen), frozen-model and train-concatenation are checked on the implementation. '
+             'Non-trivial = some output utterance contains a boundary.' % (tot, nex, n))
 
 
 if __name__ == '__main__':
